@@ -46,7 +46,9 @@ COMPONENTS = {
              "ScenarioRunnerNoTrade.apply_custom_parameters / verify_country_data / run_optimizer_for_country / run_model_no_trade / "
              "run_many_options / run_model_defaults_no_trade", "run_scenarios_from_yaml", "CalculateFeedAndMeat -> animal_populations.main up to create_animal_objects",
              "herd table readers, country table (pandas)"],
-    "simulated": ["message faults on the option dictionary (drop, unknown value, extra key, permutation, duplicate setter call, shared dictionary)"],
+    "simulated": ["message faults on the option dictionary (drop, unknown value, extra key, permutation, duplicate setter call, shared dictionary)",
+                  "transient failure of the node downstream of the dispatcher (stubbed run_and_analyze_scenario raises "
+                  "PulpSolverError / AssertionError once), followed by a clean message for the same country"],
     "stub": ["ScenarioRunner.run_and_analyze_scenario (records its arguments, returns; no LP)",
              "AnimalModelBuilder.create_animal_objects (captures the head-count row, stops the herd run)",
              "Parameters.compute_parameters_first_round (guard: must never be reached)"],
